@@ -300,10 +300,30 @@ theorem parseCsv_of_reaches {fixed : Bool} {bytes : List UInt8} {r : Outcome (Li
 
 /-! ## Totality of `parse_csv_row` -/
 
-theorem readField_field_measure (r : Reader) (input : List UInt8) {re : Bool}
-    (h : (readField r input outCap).1 = .field re) :
-    2 * (input.drop (readField r input outCap).2.1).length +
-        (if flushed (readField r input outCap).2.2.2.state then 0 else 1) <
+theorem readField_field_nin_pos (r : Reader) {input : List UInt8} (hne : input ≠ []) (cap : Nat)
+    {re : Bool} (h : (readField r input cap).1 = .field re) :
+    1 ≤ (readField r input cap).2.1 := by
+  by_cases hcap : 0 < cap
+  · exact readField_nin_pos r hne hcap
+  · have hc0 : cap = 0 := by omega
+    subst hc0
+    rw [readField_nin_eq]
+    have hres : (readField r input 0).1 = (readFieldDfa r.state (stripBom r input).1 0).1 := rfl
+    by_cases hb : (stripBom r input).2 = 0
+    · exfalso
+      have hlen := stripBom_length r input
+      have hne' : (stripBom r input).1 ≠ [] := by
+        intro h'; rw [h', hb] at hlen; simp at hlen
+        exact hne (List.length_eq_zero_iff.mp hlen.symm)
+      obtain ⟨b, rest, hbr⟩ := List.exists_cons_of_ne_nil hne'
+      rw [hres, hbr] at h
+      simp [readFieldDfa] at h
+    · omega
+
+theorem readField_field_measure (r : Reader) (input : List UInt8) (cap : Nat) {re : Bool}
+    (h : (readField r input cap).1 = .field re) :
+    2 * (input.drop (readField r input cap).2.1).length +
+        (if flushed (readField r input cap).2.2.2.state then 0 else 1) <
       2 * input.length + (if flushed r.state then 0 else 1) := by
   cases input with
   | nil =>
@@ -323,20 +343,20 @@ theorem readField_field_measure (r : Reader) (input : List UInt8) {re : Bool}
       have h1 : flushed .endRecord = true := by decide
       simp [h1, hfl]
   | cons b rest =>
-    have hpos := readField_nin_pos r (input := b :: rest) (by simp) (cap := outCap) (by decide)
+    have hpos := readField_field_nin_pos r (input := b :: rest) (by simp) cap h
     simp only [List.length_drop, List.length_cons] at hpos ⊢
     split <;> split <;> omega
 
-theorem rowLoop_isSome (fuel : Nat) (rdr : Reader) (bytes : List UInt8)
+theorem rowLoop_isSome (cap fuel : Nat) (rdr : Reader) (bytes : List UInt8)
     (acc : List (List UInt8))
     (h : 2 * bytes.length + (if flushed rdr.state then 0 else 1) < fuel) :
-    (rowLoop fuel rdr bytes acc).isSome = true := by
+    (rowLoop cap fuel rdr bytes acc).isSome = true := by
   induction fuel generalizing rdr bytes acc with
   | zero => omega
   | succ n ih =>
     simp only [rowLoop]
-    have hm := @readField_field_measure rdr bytes
-    generalize readField rdr bytes outCap = rr at hm
+    have hm := @readField_field_measure rdr bytes cap
+    generalize readField rdr bytes cap = rr at hm
     obtain ⟨res, nin, out, rdr'⟩ := rr
     simp only at hm ⊢
     cases res with
@@ -349,9 +369,9 @@ theorem rowLoop_isSome (fuel : Nat) (rdr : Reader) (bytes : List UInt8)
       · exact ih rdr' (bytes.drop nin) _ (by have := hm rfl; omega)
       · rfl
 
-/-- **Totality**: `parseCsvRowBytes` never runs out of fuel. -/
-theorem rowLoop_total (row : List UInt8) :
-    (rowLoop (parseFuel row) Reader.new row []).isSome = true := by
+/-- **Totality**: `parseCsvRowBytes` never runs out of fuel (any buffer size). -/
+theorem rowLoop_total (cap : Nat) (row : List UInt8) :
+    (rowLoop cap (parseFuel row) Reader.new row []).isSome = true := by
   apply rowLoop_isSome
   simp [Reader.new, flushed, NfaState.idx, numClasses, parseFuel]
 
